@@ -91,23 +91,27 @@ def gen_cases(rng, n, tier="quick"):
             cases.append("sweep esc %d - %d" % (f, d))
         cases.append("sweep uri.dec - - %d" % d)
         cases.append("sweep unesc - - %d" % d)
-    # all 65536 two-byte strings: both decoders, the userinfo encoder, rfc1738_escape (thorough: everything)
+    # all 65536 two-byte strings: both decoders, the userinfo encoder, rfc1738_escape (thorough: everything);
+    # one sweep case = one first byte x all second bytes (a case must answer quickly: vlib.corr stall limit)
     deep = [("uri.dec", "-"), ("unesc", "-"), ("uri.rt", "ui"), ("esc", "3")]
     if tier == "thorough":
         deep += [("uri.rt", "path"), ("uri.rt", "unres")] + [("esc", str(f)) for f in (0, 2, 4, 7, 259, 387)]
     for op, arg in deep:
-        cases.append("sweep %s %s - 2" % (op, arg))
+        for first in range(256):
+            cases.append("sweep %s %s %02x 1" % (op, arg, first))
     if tier == "thorough":
         # all strings of length 3 for the decoders; for the encoders the first byte ranges over one
         # representative per behaviour class (controls, space, '%', reserved, unreserved, DEL, 8-bit, edges)
         for first in range(256):
-            p = "%02x" % first
-            cases.append("sweep uri.dec - %s 2" % p)
-            cases.append("sweep unesc - %s 2" % p)
+            for second in range(256):
+                p = "%02x%02x" % (first, second)
+                cases.append("sweep uri.dec - %s 1" % p)
+                cases.append("sweep unesc - %s 1" % p)
         for first in sorted(set(b"\x00\x01\x09\x0a\x1f !\"#%&'+-./09:;<=>?@AZ[\\]^_`az{|}~\x7f\x80\xff")):
-            p = "%02x" % first
-            cases.append("sweep uri.rt ui %s 2" % p)
-            cases.append("sweep esc 3 %s 2" % p)
+            for second in range(256):
+                p = "%02x%02x" % (first, second)
+                cases.append("sweep uri.rt ui %s 1" % p)
+                cases.append("sweep esc 3 %s 1" % p)
     # --- small scope as single cases through the Python oracle ---
     for k in (0, 1):
         for t in itertools.product(range(256), repeat=k):
